@@ -17,6 +17,8 @@ Inductive xop :=
 | XTrimByOffset (before : Z) | XTrimByCount (max : Z) | XTrimBySize (sz : Z) | XTrimByAge (before : Z)
 | XCompactUpdates (before : Z) | XCompactDeletes (before : Z)
 | XCompact (updates_before deletes_before : Z)
+| XDeleteMultiBackoff (bk : nat) (offs : list Z)          (* the backoff function fails at its (bk+1)-th call *)
+| XTrimByOffsetBackoff (bk : nat) (before : Z)
 | XGC.
 
 Inductive xout :=
@@ -46,6 +48,8 @@ Definition xh_step (st : lstate) (op : xop) : lstate * xout :=
   | XCompactUpdates t => xdel (trim_multi H (fun s => find_updates H s t) st)
   | XCompactDeletes t => xdel (trim_multi H (fun s => find_deletes H s t) st)
   | XCompact ub db => xdel (compact_both st ub db)
+  | XDeleteMultiBackoff bk offs => xdel (log_delete_multi_bk H bk st offs)
+  | XTrimByOffsetBackoff bk b => xdel (trim_multi_bk H bk (fun s => find_by_offset H s b) st)
   | XGC => (st, XNone)
   end.
 
@@ -206,6 +210,45 @@ Proof.
       * injection E as <- <- _ _. split; [assumption|]. exists []. rewrite app_nil_r. split; [reflexivity|apply Hsame].
 Qed.
 
+Lemma delete_multi_bk_good : forall fuel bk st remaining accm accs st' del size e,
+  Good st -> delete_multi_bk H fuel bk st remaining accm accs = (st', del, size, e) ->
+  Good st' /\ exists nd, del = accm ++ nd /\ abs st' = mkAlog (remove_msgs (live (abs st)) nd) (anext (abs st)).
+Proof.
+  assert (Hsame : forall st, abs st = mkAlog (remove_msgs (live (abs st)) []) (anext (abs st))).
+  { intros st. rewrite remove_msgs_nil. symmetry. apply alog_eta. }
+  induction fuel as [|f IH]; intros bk st remaining accm accs st' del size e HG E; cbn [delete_multi_bk] in E.
+  - injection E as <- <- _ _. split; [assumption|]. exists []. rewrite app_nil_r. split; [reflexivity|apply Hsame].
+  - destruct remaining as [|o orest].
+    + injection E as <- <- _ _. split; [assumption|]. exists []. rewrite app_nil_r. split; [reflexivity|apply Hsame].
+    + destruct (log_delete H st (o :: orest)) as [[st1 [d sz]]|er] eqn:Ed.
+      * destruct (good_delete _ _ _ _ _ HG Ed) as [G1 A1]. destruct d as [|d0 dr].
+        -- injection E as <- <- _ _. split; [assumption|]. exists []. rewrite app_nil_r. split; [reflexivity|exact A1].
+        -- destruct bk as [|b].
+           ++ injection E as <- <- _ _. split; [assumption|]. exists (d0 :: dr). split; [reflexivity|exact A1].
+           ++ destruct (IH _ _ _ _ _ _ _ _ _ G1 E) as (G' & nd & -> & A'). split; [assumption|].
+              exists ((d0 :: dr) ++ nd). split; [now rewrite app_assoc|].
+              rewrite A', A1. cbn [live anext]. now rewrite remove_msgs_app.
+      * injection E as <- <- _ _. split; [assumption|]. exists []. rewrite app_nil_r. split; [reflexivity|apply Hsame].
+Qed.
+
+Lemma log_delete_multi_bk_good bk st offs st' del size e :
+  Good st -> log_delete_multi_bk H bk st offs = (st', del, size, e) ->
+  Good st' /\ abs st' = mkAlog (remove_msgs (live (abs st)) del) (anext (abs st)).
+Proof.
+  intros HG E. unfold log_delete_multi_bk in E. destruct (delete_multi_bk_good _ _ _ _ _ _ _ _ _ _ HG E) as (G' & nd & -> & A').
+  split; [assumption|exact A'].
+Qed.
+
+Lemma trim_multi_bk_good bk find st st' del size e :
+  reads_only find -> Good st -> trim_multi_bk H bk find st = (st', del, size, e) ->
+  Good st' /\ abs st' = mkAlog (remove_msgs (live (abs st)) del) (anext (abs st)).
+Proof.
+  intros HR HG E. unfold trim_multi_bk in E. destruct (find st) as [[st1 offs]|er] eqn:Ef.
+  - destruct (HR _ _ _ HG Ef) as [G1 A1]. destruct (log_delete_multi_bk_good _ _ _ _ _ _ _ G1 E) as [G' A'].
+    split; [assumption|]. rewrite A', A1. reflexivity.
+  - injection E as <- <- _ _. split; [assumption|]. rewrite remove_msgs_nil. symmetry. apply alog_eta.
+Qed.
+
 Lemma log_delete_multi_good st offs st' del size e :
   Good st -> log_delete_multi H st offs = (st', del, size, e) ->
   Good st' /\ abs st' = mkAlog (remove_msgs (live (abs st)) del) (anext (abs st)).
@@ -261,6 +304,10 @@ Proof.
     exact (trim_multi_good _ _ _ _ _ _ (find_deletes_reads before) HG E).
   - destruct (compact_both st updates_before deletes_before) as [[[s d] z] e] eqn:E. cbn [xdel fst snd xh_spec_step].
     exact (compact_both_good _ _ _ _ _ _ _ HG E).
+  - destruct (log_delete_multi_bk H bk st offs) as [[[s d] z] e] eqn:E. cbn [xdel fst snd xh_spec_step].
+    exact (log_delete_multi_bk_good _ _ _ _ _ _ _ HG E).
+  - destruct (trim_multi_bk H bk (fun s => find_by_offset H s before) st) as [[[s d] z] e] eqn:E. cbn [xdel fst snd xh_spec_step].
+    exact (trim_multi_bk_good _ _ _ _ _ _ _ (find_by_offset_reads before) HG E).
   - cbn [fst snd xh_spec_step]. split; [assumption|reflexivity].
 Qed.
 
